@@ -38,6 +38,7 @@ def gen_case(rng, tier):
     prof = G.default_profile(rng, tier)
     prof["relaunch"] = rng.choice([0, 0, 0.2])
     prof["switches"] = rng.choice([0, 0, 0, 0.3])  # two-way branches written as scf.index_switch
+    prof["local_callee"] = rng.choice([0, 0, 0.5])  # calls to a function of the module that sets up an accelerator itself
     prof["while_loops"] = rng.choice([0, 0, 0, 0.3])  # counted loops written as scf.while
     prof["memory"] = rng.choice([0, 0, 0, 0.4])  # some configuration values are kept in memory
     prof["state_loops"] = rng.choice([0, 0, 0.6])  # hand-threaded loops that already carry an accelerator's state ...
